@@ -57,6 +57,22 @@ func runC14(p *Program, r *Result) {
 					break
 				}
 			}
+			// an explicit panic of a helper that has been spliced into this function: the entry
+			// names the helper, which no longer exists; the message identifies the panic
+			if !found && ob.Kind == "panic" {
+				for i, e := range table {
+					if e.Construct != ob.Desc || len(e.Requires) != 0 || funcNamed(p, e.Func) || pkgOfFull(e.Func) != pkgOfFull(fn.String()) {
+						continue
+					}
+					found = true
+					used[i] = true
+					r.OK(fn.String(), ob.Desc, r.pos(ob.Instr), "table (entry of "+short(e.Func)+", spliced here): "+e.Reason, Witness{Kind: "table", Text: e.Reason})
+					break
+				}
+				if found {
+					continue
+				}
+			}
 			if !found && ob.Kind == "panic" {
 				if why, ok := panicExcludedByCallers(p, fn, ob.Instr); ok {
 					r.OK(fn.String(), ob.Desc, r.pos(ob.Instr), why)
@@ -301,6 +317,67 @@ func checkLoops(p *Program, r *Result) {
 							if ph, ok := side.(*ssa.Phi); ok && ph.Block() == l.Header && monotone(ph) {
 								bounded = true
 							}
+						}
+					}
+				}
+			}
+			// (b') the same with the test anywhere in the body (`for i := n; ; i-- { .. if i == 0 {
+			// panic/return/break } }`): a branch on the monotone counter one side of which
+			// leaves the loop
+			if !bounded {
+				for _, in := range l.Header.Instrs {
+					ph, isPhi := in.(*ssa.Phi)
+					if !isPhi {
+						break
+					}
+					if !monotone(ph) {
+						continue
+					}
+					for b := range l.Blocks {
+						ifi, ok := b.Instrs[len(b.Instrs)-1].(*ssa.If)
+						if !ok {
+							continue
+						}
+						cmp, ok := ifi.Cond.(*ssa.BinOp)
+						if !ok || (cmp.X != ssa.Value(ph) && cmp.Y != ssa.Value(ph)) {
+							continue
+						}
+						other := cmp.Y
+						if cmp.Y == ssa.Value(ph) {
+							other = cmp.X
+						}
+						if _, isConst := other.(*ssa.Const); !isConst {
+							continue
+						}
+						if cmp.Op == token.EQL || cmp.Op == token.NEQ {
+							// an equality test is only met for sure when the counter moves in steps of one
+							unit := true
+							for _, e := range ph.Edges {
+								if bo, isBo := e.(*ssa.BinOp); isBo && bo.X == ssa.Value(ph) {
+									if k, isK := constInt(bo.Y); !isK || k != 1 {
+										unit = false
+									}
+								}
+							}
+							if !unit {
+								continue
+							}
+						}
+						// every iteration passes this test, and one side does not come back
+						everyIter := true
+						for _, pr := range l.Header.Preds {
+							if l.Blocks[pr] && pr != l.Header && !(b == pr || b.Dominates(pr)) {
+								everyIter = false
+							}
+						}
+						leaves := false
+						for _, su := range b.Succs {
+							if !l.Blocks[su] {
+								leaves = true
+							}
+						}
+						if everyIter && leaves {
+							bounded = true
 						}
 					}
 				}
@@ -619,4 +696,26 @@ func panicExcludedByCallers(p *Program, fn *ssa.Function, at ssa.Instruction) (s
 		}
 	}
 	return "", false
+}
+
+// pkgOfFull: the package path of a full function name ("pkg.F", "(*pkg.T).M").
+func pkgOfFull(full string) string {
+	full = strings.TrimPrefix(strings.TrimPrefix(full, "("), "*")
+	if i := strings.Index(full, ")"); i >= 0 {
+		full = full[:i]
+	}
+	if i := strings.LastIndex(full, "."); i >= 0 {
+		return full[:i]
+	}
+	return full
+}
+
+// funcNamed: a function with this full name exists in the analysed program.
+func funcNamed(p *Program, full string) bool {
+	for _, f := range p.Funcs {
+		if f.String() == full {
+			return true
+		}
+	}
+	return false
 }
